@@ -508,6 +508,15 @@ def run_case(case, acc):
         exe2_accesses = vk.log[n0:]
         r_cwd = call(pr.cwd)
         r_name = call(pr.name)
+        # the process changes its command line afterwards (exec of another long-named program, a rewritten title): name() is
+        # computed from what the kernel exposes *now*, also on an object that answered before
+        r_name_after = None
+        if len(comm_b) == 15 and not zombie and all(c < 0x80 for c in comm_b):
+            suffix = "-two" if case["pid"] % 2 else ""
+            new_argv0 = "/opt/other dir/" + os.fsdecode(comm_b) + suffix if case["pid"] % 3 else "/usr/bin/unrelated-name"
+            p.cmdline = os.fsencode(new_argv0) + b"\0--flag\0"
+            r_name_after = (call(pr.name), new_argv0)
+            p.cmdline = block
         # the same record through the other call paths: a fresh object asked in the opposite order inside a oneshot()
         # block, and as_dict() on a third one. A static record must read the same whichever path is taken.
         plain = dict(cmdline=r_cmd, environ=r_env, exe=r_exe, cwd=r_cwd, name=r_name)
@@ -658,6 +667,15 @@ def run_case(case, acc):
         acc.count("name_extension_applied")
     if len(comm_b) == 15 and not applied:
         acc.count("name_15_bytes_not_extended")
+    if r_name_after is not None:
+        res2, argv0 = r_name_after
+        w2, _a2 = want_name(comm_b, {(argv0, "--flag")})
+        acc.count("name_after_cmdline_change_checked")
+        if res2[0] == "exc":
+            viols.append((f"name_exception:{type(res2[1]).__name__}", f"after the command line changed: {res2[1]!r}"))
+        elif res2[1] not in w2:
+            viols.append(("name_wrong:after_cmdline_change", f"name() -> {res2[1]!r} after argv[0] became {argv0!r}; want {sorted(w2)!r} "
+                                                             f"(first answer {r_name!r}) comm={comm_b!r}"))
     acc.case(case, nontrivial(case, tmp), viols)
 
 
